@@ -466,8 +466,9 @@ impl World {
         }
         match &mut op {
             Op::Authenticate(a) => {
-                if let Some(k) = a.rp_of {
+                if let Some(k) = a.rp_of.filter(|k| !self.model[k % self.model.len()].rp.trim_end_matches('.').is_empty()) {
                     let rp = self.model[k % self.model.len()].rp.clone();
+                    // (a record whose RP ID is empty gives no host to aim at: the request stays as generated)
                     // hosts of origins are lower-case (the URL parser sees to that); the RP ID keeps its spelling
                     a.origin.host = rp.trim_end_matches('.').to_ascii_lowercase();
                     if a.rp_id.is_some() {
